@@ -478,14 +478,37 @@ def rule_greedy(ctx: Ctx, which: str) -> None:
             continue
         inner = loops[0]
         val = st.value
-        if isinstance(val, ast.Name):
-            d = G.single_def(val.id, st)
-            inv = d is not None and not any(inner is x for x in G.loops_of(d))
+        if isinstance(val, ast.Name) or not any(isinstance(x, ast.Call) for x in ast.walk(val)):
+            if isinstance(val, ast.Name):
+                d = G.single_def(val.id, st)
+                inv = d is not None and not any(inner is x for x in G.loops_of(d))
+                shown = val.id
+            else:
+                # the choice written out in place (`peers[min_index]`): invariant when nothing it reads is bound or
+                # stored to inside the loop over the factors
+                reads = {norm(x) for x in ast.walk(val) if isinstance(x, (ast.Name, ast.Attribute)) and isinstance(x.ctx, ast.Load)}
+                written = set()
+                for x in ast.walk(inner):
+                    tg = []
+                    if isinstance(x, ast.Assign):
+                        tg = [t for t in x.targets if t is not st.targets[0]]
+                    elif isinstance(x, (ast.AugAssign, ast.AnnAssign, ast.For, ast.comprehension)):
+                        tg = [x.target]
+                    elif isinstance(x, ast.Call) and isinstance(x.func, ast.Attribute) and x.func.attr in (
+                            'append', 'pop', 'extend', 'insert', 'remove', 'sort', 'reverse', 'clear', 'update', 'setdefault'):
+                        tg = [x.func.value]
+                    for t in tg:
+                        for e in (t.elts if isinstance(t, (ast.Tuple, ast.List)) else [t]):
+                            while isinstance(e, (ast.Subscript, ast.Starred)):
+                                e = e.value
+                            written.add(norm(e))
+                inv = not (reads & written)
+                shown = norm(val)
             guards = [g for g in flow.enclosing_guards(p, f, st)]
             colocated = which == 'GPT' or any(norm(g.test) == 'colocate_factors' and g.polarity for g in guards)
             if colocated:
-                ctx.check(inv, 'COH-COLOC', f, f'{tag}{val.id} is chosen once per layer and stored for every factor', norm(st)[:100],
-                          f'{tag}co-located placement: {val.id} is recomputed inside the loop over the factors of a layer, so factors of one layer can land on different workers', st)
+                ctx.check(inv, 'COH-COLOC', f, f'{tag}{shown} is chosen once per layer and stored for every factor', norm(st)[:100],
+                          f'{tag}co-located placement: {shown} is recomputed inside the loop over the factors of a layer, so factors of one layer can land on different workers', st)
 
 
 # --------------------------------------------------------------------------- KAISA grid
@@ -579,6 +602,7 @@ def rule_coh_grid(ctx: Ctx) -> None:
     ctx.check(ok, 'COH-GRID', init, 'greedy assignment is confined to the gradient-worker groups (columns)', '_inv_assignments',
               f'inverse workers are assigned by {norm(ia)[:140] if ia is not None else None}; the candidate groups must be the gradient-worker groups', ia or init.node)
     # per-layer records
+    handle_tables: set[str] = set()
     for rec, tab, member in (('_grad_worker_groups', 'grad_worker_ranks', 'inv_worker'), ('_grad_receiver_groups', 'grad_receiver_ranks', 'self.local_rank')):
         sts = [n for n in nodes if isinstance(n, ast.Assign) and len(n.targets) == 1 and isinstance(n.targets[0], ast.Subscript) and norm(n.targets[0].value) == f'self.{rec}']
         good = False
@@ -587,9 +611,14 @@ def rule_coh_grid(ctx: Ctx) -> None:
             loops = [lp for lp in flow.enclosing_loops(p, init, st) if isinstance(lp, ast.For)]
             v = st.value
             if (f'{member} in ranks', True) in atoms and any(norm(lp.iter) == tab and norm(lp.target) == 'ranks' for lp in loops) \
-                    and isinstance(v, ast.Call) and norm(v.func) == '_Group' and {k.arg: norm(k.value) for k in v.keywords} == {'ranks': 'ranks', 'group': 'ranks_to_communication_group[ranks]'} \
+                    and isinstance(v, ast.Call) and norm(v.func) == '_Group' and sorted(k.arg or '' for k in v.keywords) == ['group', 'ranks'] \
                     and norm(st.targets[0].slice) == 'layer':
-                good = True
+                kws = {k.arg: k.value for k in v.keywords}
+                h = kws['group']
+                # the handle is looked up, under the very rank set stored, in a local table (whatever it is called)
+                if norm(kws['ranks']) == 'ranks' and isinstance(h, ast.Subscript) and isinstance(h.value, ast.Name) and norm(h.slice) == 'ranks':
+                    good = True
+                    handle_tables.add(h.value.id)
         ctx.check(good, 'COH-GRID', init, f'{rec}[layer] = the element of {tab} containing {member}, with the handle created for the same ranks', rec,
                   f'self.{rec}[layer] is not set to _Group(ranks=ranks, group=ranks_to_communication_group[ranks]) for the element of {tab} that contains {member}', sts[0] if sts else init.node)
     iw = assigned('inv_worker')
@@ -602,9 +631,10 @@ def rule_coh_grid(ctx: Ctx) -> None:
     # group handles created for every row and column under the ranks they are looked up by
     okh = False
     union = ('grad_worker_ranks | grad_receiver_ranks', 'grad_receiver_ranks | grad_worker_ranks')
-    for key, val, it, tgt in _dict_builds(p, init, 'ranks_to_communication_group'):
-        if it in union and key == tgt and val in (f'self.group_func(list({tgt}))', f'self.group_func(sorted({tgt}))'):
-            okh = True
+    htab = next(iter(handle_tables)) if len(handle_tables) == 1 else 'ranks_to_communication_group'
+    builds = _dict_builds(p, init, htab)
+    okh = bool(builds) and len(handle_tables) <= 1 and all(
+        it in union and key == tgt and val in (f'self.group_func(list({tgt}))', f'self.group_func(sorted({tgt}))') for key, val, it, tgt in builds)
     ctx.check(okh, 'COH-GRID', init, 'one handle per row and per column, keyed by its ranks', 'ranks_to_communication_group',
               'process-group handles are not created once for every gradient-worker and gradient-receiver rank set and stored under that rank set', init.node)
     # accessor methods
